@@ -53,7 +53,7 @@ pub(crate) struct PoolState<const P: usize> { pub origin: u32, pub free: u32, pu
 }
 
 #[cfg(kani)]
-mod proofs {
+pub(crate) mod proofs {
     use super::*;
     /// `_mm_pause` is not modelled by Kani; a spin hint has no effect on program state
     pub(crate) fn noop() {}
